@@ -92,6 +92,9 @@ def run_t2s(bdir, cd, blob, cpu=10):
 def tar_mutations(data, r, n_trunc, n_flip):
     """yields (class, description, bytes)"""
     members = list(tarmodel.walk(data))
+    # the generated archive as it is: well-formed, but with the boundary shapes the generator aims at (full-width header fields, long
+    # sparse maps, ...) - the memory-safety half of the oracle applies to it like to any other input
+    yield ("identity", "unmodified generated archive", bytes(data))
     # truncation: structural offsets + seeded ones
     offs = set()
     for a, b in members[:6]:
@@ -266,6 +269,18 @@ def fixed_hostile_archives():
             h = bytearray(tarmodel._header(b"plain%d" % i, 0o644, 0, 0, 0, 0, b"0", magic=b"ustar  \0"))
             h[off:off + ln] = (w + b"\xff" * 12)[:ln] if ln == 12 else w[:1] + w[5:12]
             out.append(("header-" + what, "%s field %r" % (what, bytes(h[off:off + ln])), fix(h) + tail))
+    # well-formed POSIX ustar members whose fixed-width fields are filled to the last byte (no terminator inside the field):
+    # name (100), prefix (155), link name (100), user / group name (32)
+    for label, kw in (("name-100+prefix", dict(name=b"n" * 100, prefix=b"dir1")), ("name-100+prefix-155", dict(name=b"m" * 100, prefix=b"p" * 155)),
+                      ("name-100", dict(name=b"o" * 100, prefix=b""))):
+        h = bytearray(tarmodel._header(kw["name"], 0o644, 0, 0, 5, 0, b"0", magic=b"ustar\0" b"00", prefix=kw["prefix"]))
+        out.append(("ustar-full-fields", label, fix(h) + tarmodel._pad(b"12345") + tail))
+    h = bytearray(tarmodel._header(b"lnk", 0o777, 0, 0, 0, 0, b"2", b"t" * 100, magic=b"ustar\0" b"00", prefix=b"dir1"))
+    out.append(("ustar-full-fields", "linkname-100", fix(h) + tail))
+    h = bytearray(tarmodel._header(b"owner", 0o644, 0, 0, 0, 0, b"0", magic=b"ustar\0" b"00"))
+    h[265:297] = b"u" * 32
+    h[297:329] = b"g" * 32
+    out.append(("ustar-full-fields", "uname/gname-32", fix(h) + tail))
     return out
 
 
